@@ -802,6 +802,44 @@ impl World {
         }
     }
 
+    /// `conserve::diff(version, source tree)` collected as (sigil, apath).
+    pub fn diff(&mut self, band: u32, include_unchanged: bool, exclude: &[String]) -> (Outcome<Result<Vec<(char, String)>, ErrInfo>>, Vec<ErrInfo>) {
+        let monitor = TestMonitor::arc();
+        let mon2 = monitor.clone();
+        let src = self.src.clone();
+        let exclude = exclude.to_vec();
+        let r = run_call(&self.core, self.call_opts(FaultPlan::none()), move |t| async move {
+            let archive = Archive::open(t).await.map_err(|e| err_info(&e))?;
+            let st = archive
+                .open_stored_tree(BandSelectionPolicy::Specified(band_id(band)))
+                .await
+                .map_err(|e| err_info(&e))?;
+            let lt = conserve::SourceTree::open(&src).map_err(|e| err_info(&e))?;
+            let opts = conserve::DiffOptions {
+                exclude: mk_exclude(&exclude),
+                include_unchanged,
+            };
+            let mut d = conserve::diff(&st, &lt, opts, mon2).await.map_err(|e| err_info(&e))?;
+            let mut out = Vec::new();
+            while let Some(c) = d.next().await {
+                out.push((c.change.sigil(), c.apath.to_string()));
+            }
+            Ok(out)
+        });
+        let errors: Vec<ErrInfo> = monitor.take_errors().iter().map(err_info).collect();
+        (r.outcome, errors)
+    }
+
+    /// The order in which Conserve's own source walk yields the current source tree.
+    pub fn source_walk(&self, exclude: &[String]) -> Result<Vec<String>, String> {
+        use conserve::EntryTrait;
+        let lt = conserve::SourceTree::open(&self.src).map_err(|e| e.to_string())?;
+        let it = lt
+            .iter_entries(Apath::root(), mk_exclude(exclude), TestMonitor::arc())
+            .map_err(|e| e.to_string())?;
+        Ok(it.map(|e| e.apath().to_string()).collect())
+    }
+
     /// Bands the model holds as complete and not deleted, ascending.
     pub fn complete_versions(&self) -> Vec<u32> {
         self.versions
